@@ -86,6 +86,24 @@ pub fn sets() -> Vec<TemplateSet> {
             datas: vec![V::obj(&[("v", V::Int(1))]), V::obj(&[("v", V::s("two"))])],
         },
         TemplateSet {
+            name: "failure after partial output inside every wrapping / buffering construct",
+            // `fail` selects the construct in which the render dies *after* that construct has already
+            // produced output: anything a renderable buffers outside the per-render state survives into
+            // the next render of the same parsed template (or cached partial)
+            partials: p(&[("inc", "F{{ p }}{% if fail == 7 %}{{ undefined }}{% endif %}f{% ifchanged %}{{ p }}{% if fail == 8 %}{{ undefined }}{% endif %}g{% endifchanged %}")]),
+            templates: vec![
+                "{% ifchanged %}A{{ p }}{% if fail == 1 %}{{ undefined }}{% endif %}a{% endifchanged %}{% capture c %}B{{ p }}{% if fail == 2 %}{{ undefined }}{% endif %}b{% endcapture %}{{ c }}{% for i in (1..2) %}C{{ i }}{% if fail == 3 %}{{ undefined }}{% endif %}{% ifchanged %}{{ p }}{% if fail == 4 %}{{ undefined }}{% endif %}h{% endifchanged %}{% endfor %}{% tablerow i in (1..2) %}D{% if fail == 5 %}{{ undefined }}{% endif %}{% endtablerow %}{% case p %}{% when 'x' %}E{% if fail == 6 %}{{ undefined }}{% endif %}{% else %}e{% endcase %}{% include 'inc' %}{% unless false %}H{% if fail == 9 %}{{ undefined }}{% endif %}{% endunless %}{{ p | append: 'G' }}{% cycle 'u', 'v' %}{% increment n %}",
+                "{% render 'inc', p: p, fail: fail %}|{% ifchanged %}{{ p }}{% endifchanged %}{% capture c %}{% render 'inc', p: p, fail: fail %}{% endcapture %}{{ c }}",
+            ],
+            datas: {
+                let mut d: Vec<V> = (0..10).map(|f| V::obj(&[("fail", V::Int(f)), ("p", V::s("x"))])).collect();
+                for f in [0, 1, 4] {
+                    d.push(V::obj(&[("fail", V::Int(f)), ("p", V::s("y"))]));
+                }
+                d
+            },
+        },
+        TemplateSet {
             name: "tablerow / forloop / nested stateful",
             partials: p(&[("row", "{% tablerow i in a cols:2 %}{{ i }}{% cycle 'o', 'e' %}{% endtablerow %}")]),
             templates: vec![
@@ -216,7 +234,9 @@ pub fn run(tier: Tier) -> i32 {
     let k = if tier.thorough() { 5 } else { 4 };
     for set in &sets {
         for policy in [Policy::Eager, Policy::Lazy, Policy::OnDemand] {
-            explore(&report, set, policy, k, false);
+            // wide alphabets (many data objects) get one step less so that the tier stays within its budget
+            let wide = set.templates.len() * set.datas.len() > 12;
+            explore(&report, set, policy, if wide { k - 1 } else { k }, false);
         }
     }
     if tier.thorough() {
